@@ -33,7 +33,7 @@ var cellAlphabet = []vaxis.Cell{
 	{Character: ch("b", 1), Style: vaxis.Style{Foreground: vaxis.IndexColor(12), Background: vaxis.IndexColor(200), Attribute: vaxis.AttrReverse | vaxis.AttrDim | vaxis.AttrStrikethrough | vaxis.AttrBlink | vaxis.AttrInvisible}},
 	{Character: ch("世", 2)},
 	{Character: ch("世", 0)},
-	{Character: ch("é", 0)},
+	{Character: ch("e\u0301", 0)},
 	{Character: ch("👩‍🚀", 0)},
 	{Character: ch("🇺🇸", 0)},
 	{Character: ch("❤️", 0)},
